@@ -112,7 +112,7 @@ def run(res):
         cmd = r.choice(["convert", "demux", "remove"])
         for drop in (1, 0):
             opts = {"drop": drop}
-            m = C.model().run([c05.model_line(c05.CFG[cmd], opts, nals)])[0]
+            m = C.model().run([c05.model_line(c05.CFG[cmd], opts, nals, data)])[0]
             inp = w.write("in.hevc", data)
             args, outs = c05.cli_args(cmd, opts, inp, w)
             for f in outs.values():
